@@ -29,6 +29,8 @@ type c17Case struct {
 	Via   string `json:"via"`   // lib, cli
 	Rep   int    `json:"rep,omitempty"`
 	Big   bool   `json:"big,omitempty"`   // slice size 96 and larger files, so that the goroutine option really splits the work
+	Blocks int   `json:"blocks,omitempty"` // recovery blocks / volumes (default 3)
+	PriorBlocks int `json:"priorblocks,omitempty"` // history inside the process: an unrelated Create with this many blocks ran just before
 	Look  bool   `json:"look,omitempty"` // look-alike inputs: every file 17000 bytes with the same first 16 KiB, different tails (slice size 1000)
 	Dup   string `json:"dup,omitempty"`   // the first input is listed a second time (at the end), spelled in this style
 	Stale int    `json:"stale,omitempty"` // the set directory already holds output files: 1 = longer garbage under the same names, 2 = shorter, 3 = unrelated text; 4 = a real earlier Create over the same inputs with ONE block; 5 = a real earlier identical Create whose recovery files were then deleted / corrupted
@@ -37,6 +39,13 @@ type c17Case struct {
 var c17Names = []string{"f0", "sub/f1", "f2", "sub/deep/f3"}
 var c17Sizes = []int{11, 6, 9, 4}
 var c17BigSizes = []int{300, 96, 200, 50}
+
+func (c *c17Case) blocks() int {
+	if c.Blocks > 0 {
+		return c.Blocks
+	}
+	return 3
+}
 
 func (c *c17Case) slice() int {
 	if c.Look {
@@ -195,7 +204,7 @@ func c17CreateIn(c *c17Case, seed int64, r *core.Rec, stale map[string][]byte) (
 		if bin == "" {
 			return nil, fmt.Errorf("VERIF_PAR_BIN not set")
 		}
-		cl := []string{"-g", fmt.Sprint(c.G), "c", "-s", fmt.Sprint(c.slice()), "-c", "3", parArg}
+		cl := []string{"-g", fmt.Sprint(c.G), "c", "-s", fmt.Sprint(c.slice()), "-c", fmt.Sprint(c.blocks()), parArg}
 		cl = append(cl, args...)
 		cmd := exec.Command(bin, cl...)
 		cmd.Dir = cwd
@@ -212,9 +221,9 @@ func c17CreateIn(c *c17Case, seed int64, r *core.Rec, stale map[string][]byte) (
 		}
 		pi := core.Catch(func() {
 			if c.Fmt == "p2" {
-				err = par2.Create(parArg, args, par2.CreateOptions{SliceByteCount: c.slice(), NumParityShards: 3, NumGoroutines: c.G})
+				err = par2.Create(parArg, args, par2.CreateOptions{SliceByteCount: c.slice(), NumParityShards: c.blocks(), NumGoroutines: c.G})
 			} else {
-				err = par1.Create(parArg, args, par1.CreateOptions{NumParityFiles: 3})
+				err = par1.Create(parArg, args, par1.CreateOptions{NumParityFiles: c.blocks()})
 			}
 		})
 		os.Chdir(old)
@@ -252,7 +261,7 @@ func c17RunDup(c *c17Case, r *core.Rec) {
 	key := fmt.Sprintf("%s/%d", c.Fmt, c.N)
 	base := c17DupBase[key]
 	if base == nil {
-		b := &c17Case{Fmt: c.Fmt, N: c.N, G: 1, Cwd: "set", Spell: "rel", Via: "lib", Dup: "rel"}
+		b := &c17Case{Fmt: c.Fmt, N: c.N, G: 1, Cwd: "set", Spell: "rel", Via: "cli", Dup: "rel"}
 		out, err := c17Create(b, r.Seed, r)
 		base = &c17DupRes{err, out}
 		c17DupBase[key] = base
@@ -285,10 +294,12 @@ func c17Run(ci interface{}, r *core.Rec) {
 		c17RunDup(c, r)
 		return
 	}
-	key := fmt.Sprintf("%s/%d/%v/%v", c.Fmt, c.N, c.Big, c.Look)
+	key := fmt.Sprintf("%s/%d/%v/%v/%d", c.Fmt, c.N, c.Big, c.Look, c.blocks())
 	base, ok := c17Base[key]
 	if !ok {
-		b := &c17Case{Fmt: c.Fmt, N: c.N, Perm: 0, G: 1, Cwd: "set", Spell: "rel", Via: "lib", Big: c.Big, Look: c.Look}
+		// the baseline comes from the built command, i.e. from a fresh process: a baseline made by a library call in this
+		// worker process would share whatever the process has accumulated with the runs it is compared to
+		b := &c17Case{Fmt: c.Fmt, N: c.N, Perm: 0, G: 1, Cwd: "set", Spell: "rel", Via: "cli", Big: c.Big, Look: c.Look, Blocks: c.Blocks}
 		var err error
 		base, err = c17Create(b, r.Seed, r)
 		if err != nil {
@@ -395,6 +406,13 @@ func c17Gen(g *core.Gen) {
 					}
 				}
 			}
+			// other block counts (several recovery files, a clamped last one), alone and right after an unrelated Create
+			// with yet another block count in the same process
+			for _, b := range []int{5, 6, 7, 9, 12} {
+				for _, pb := range []int{0, 5, 6, 9, 20} {
+					g.Emit(&c17Case{Fmt: f, N: n, G: 1 + (b+pb)%3, Cwd: cwds[(b+pb)%3], Spell: "rel", Via: "lib", Blocks: b, PriorBlocks: pb})
+				}
+			}
 			// look-alike inputs (same length, same first 16 KiB): every permutation x goroutines {1,3}
 			if n >= 2 {
 				for pm := 0; pm < np; pm++ {
@@ -427,8 +445,8 @@ func init() {
 	core.Register(&core.Prop{
 		ID:    "C17",
 		Level: "model_checking",
-		Rule: "full product on real directories: {PAR2, PAR1} x 1-4 files (PAR2 names in sub-directories) x EVERY permutation of the input list (PAR2) x goroutines 1..8 x working directory {set directory, its parent, an unrelated directory} x path spelling {relative, absolute, ./x, d//x, d/../d/x} for the index path and every input, through the library (the worker chdir()s, one scenario at a time) and through the built par command (g in {1,3}); the same for a set with slice size 96 and multi-slice files x goroutines 1..16 (so that the goroutine option really partitions the shards); repeated runs; look-alike inputs (equal length, identical first 16 KiB, different tails) x every permutation x g {1,3}; an input listed twice, for every pair of spellings of its two mentions x working directory (whatever Create does with a repeated input, the outcome - error or bytes - must equal that of the list with both mentions spelled alike). " +
-			"Oracle: the set of files written and every byte equal the baseline run (set directory, relative paths, listed order, g=1). non-trivial = any variation differs from the baseline configuration",
+		Rule: "full product on real directories: {PAR2, PAR1} x 1-4 files (PAR2 names in sub-directories) x EVERY permutation of the input list (PAR2) x goroutines 1..8 x working directory {set directory, its parent, an unrelated directory} x path spelling {relative, absolute, ./x, d//x, d/../d/x} for the index path and every input, through the library (the worker chdir()s, one scenario at a time) and through the built par command (g in {1,3}); the same for a set with slice size 96 and multi-slice files x goroutines 1..16 (so that the goroutine option really partitions the shards); repeated runs; block counts {5,6,7,9,12} alone and right after an unrelated Create with {5,6,9,20} blocks in the same process; look-alike inputs (equal length, identical first 16 KiB, different tails) x every permutation x g {1,3}; an input listed twice, for every pair of spellings of its two mentions x working directory (whatever Create does with a repeated input, the outcome - error or bytes - must equal that of the list with both mentions spelled alike). " +
+			"Oracle: the set of files written and every byte equal the baseline run (the built command in a fresh process: set directory, relative paths, listed order, g=1). non-trivial = any variation differs from the baseline configuration",
 		Assumptions: []string{"file contents, names relative to the index, slice size and block count are held fixed; everything else varies"},
 		NewCase:     func() interface{} { return &c17Case{} },
 		Gen:         c17Gen,
